@@ -165,11 +165,15 @@ func (c *compressor) writeBlock() {
 	c.next = 0
 
 	b := c.buf.Bytes()
-	i := bytes.Index(b, bgzfExtraPrefix)
-	if i < 0 {
+	// The BC subfield leads the extra field, which follows the ten
+	// fixed header bytes and XLEN. Searching from the start of the
+	// member could match the modification time instead.
+	const extraOffset = 10 + 2
+	if len(b) < extraOffset || !bytes.HasPrefix(b[extraOffset:], bgzfExtraPrefix) {
 		c.err = gzip.ErrHeader
 		return
 	}
+	i := extraOffset
 	size := len(b) - 1
 	if size >= MaxBlockSize {
 		c.err = ErrBlockOverflow
